@@ -536,6 +536,43 @@ def stepW (N : Num F) (le : F → F → Bool) (k : Kind F) (pm : PM F) (dist : N
     (n numAnts : Nat) (gw : List Nat) (wits : List (List Nat)) : StepOut F :=
   stepOf k pm dist (generateW N le pm dist α β n numAnts gw wits)
 
+/-! ### The same step composed from the public components under an evaluator identifier
+
+`heuristics::aco::aco::<P, I>` (and every hand-built colony) puts `evaluate_with::<I>()` =
+`PopulationEvaluator<I>` between `AcoGeneration` and the pheromone update. The state may hold an evaluator
+under each identifier; the step must use the one registered under the REQUESTED identifier `I`, whatever
+is registered under the others. -/
+
+/-- Identifiers an evaluator can be registered under (`Global`, `A`, `B`). -/
+inductive EvalId where
+  | global | a | b
+  deriving DecidableEq, Repr
+
+/-- The evaluators held by the state: for every identifier at most one objective function on routes. -/
+abbrev EvalStore (F : Type) := EvalId → Option (List Nat → F)
+
+/-- Generation, `PopulationEvaluator<I>` (the evaluator under identifier `i`; `none` = `execute` returns
+`Err` because the state holds no evaluator under `i`), pheromone update. -/
+def stepOfWith (store : EvalStore F) (i : EvalId) (k : Kind F) (pm : PM F) (g : GenOut) : Option (StepOut F) :=
+  match g with
+  | .panic => some .genPanic
+  | .badWitness => some .badWitness
+  | .tours ts =>
+    match store i with
+    | none => none
+    | some f =>
+      let objs := ts.map f
+      let pop := ts.map (fun t => ({ route := t, obj := some (f t) } : Ind F))
+      match update k pm pop with
+      | none => some (.updPanic ts objs)
+      | some pm' => some (.ok ts objs pm')
+
+/-- The composed step with the greedy tie-breaking left open. -/
+def stepWWith (N : Num F) (le : F → F → Bool) (store : EvalStore F) (i : EvalId) (k : Kind F) (pm : PM F)
+    (dist : Nat → Nat → F) (α β : F) (n numAnts : Nat) (gw : List Nat) (wits : List (List Nat)) :
+    Option (StepOut F) :=
+  stepOfWith store i k pm (generateW N le pm dist α β n numAnts gw wits)
+
 /-! ### Runs: every pheromone state the algorithm can reach -/
 
 /-- What a run of `aco` fixes: the update component, the instance, the generation parameters and the value
@@ -925,6 +962,12 @@ def handleCase (input impl : Sexp) : Option Verdict :=
   | .list (.atom "gen" :: args) => handleGen args impl
   | .list (.atom "upd" :: args) => handleUpd args impl
   | .list [.atom "step", kS, pmS, dS, parS, antsS, _] => do
+    judgeStep (← stepIn? kS pmS dS parS antsS) impl
+  -- the step composed under evaluator identifier `id` with decoy evaluators under the other identifiers:
+  -- the tour-length evaluator is the one registered under `id`, so the verdict is that of the plain step
+  -- (`stepOfWith_eq_stepOf`): in particular the objectives must be the closing-edge tour lengths.
+  | .list [.atom "cstep", .list [.atom "eval", .atom id, .atom _decoy], kS, pmS, dS, parS, antsS, _] => do
+    if id != "g" && id != "a" && id != "b" then none
     judgeStep (← stepIn? kS pmS dS parS antsS) impl
   | .list (.atom "tstep" :: _) =>
     match impl with
